@@ -1410,7 +1410,7 @@ pub fn oracle_c11(ctx: &Ctx, out: &mut Out, s: &Subject, rng: &mut Rng) {
                     continue;
                 }
                 if !weaker_or_equal(&r1, &fresh[gi]) {
-                    fail_once(out, &mut seen, &format!("{}: interrupted solve of `{}` (callback false: {}) answers {} but the full answer is {}", name, low.goals[gi].0, sname, render(&r1), render(&fresh[gi])), &input(""), &format!("{}_interrupted_answer_contradicts", if name == "slg" { "slg" } else { "recursive" }));
+                    fail_once(out, &mut seen, &format!("{}: interrupted solve of `{}` (callback false: {}) answers {} but the full answer is {}", name, low.goals[gi].0, sname, render(&r1), render(&fresh[gi])), &input(""), &(if name != "slg" && is_mixed(s) { "recursive_mixed_cycle_cached".to_string() } else { format!("{}_interrupted_answer_contradicts", if name == "slg" { "slg" } else { "recursive" }) }));
                 }
                 // a second limited solve, then full solves on the same instance
                 let r2 = limited(&mut *solver, g, &[true, false], rng.chance(1, 2));
@@ -1622,7 +1622,7 @@ pub fn oracle_c09(ctx: &Ctx, out: &mut Out, s: &Subject, rng: &mut Rng) {
                     } else {
                         "slg_work_budget_exceeded"
                     };
-                    out.fail(&format!("{}: solving `{}` did not return within {} steps of work", name, gt, WORK_BUDGET), &input, c);
+                    out.fail(&format!("{}: solving `{}` did not return within {} steps of work", name, gt, if rec { WORK_BUDGET } else { SLG_WORK_BUDGET }), &input, c);
                 }
                 Err(m) if m.contains("overflow depth reached") && name.starts_with("recursive") => {
                     // allowed by the property: the proof search exceeds the configured depth.  On a
